@@ -53,8 +53,8 @@ def CRASH(mode, focus, q, t, steps=2, shards_q=4, big=False, nops=8, segsize=0, 
 # directed histories (corpus, fixed seed): 8 KiB rollback segments, six fat commits (one segment each), then rollback(5) / prune + rollback-all,
 # every event of every operation; "nested" additionally crashes at every event of every recovery, each probe on a fresh copy of the crashed image (found F16)
 def SCRIPTED(mode):
-    foci = ["script-rollback-multi-segment"] if mode == "nested" else ["script-rollback-multi-segment", "script-prune-then-rollback-all", "script-elision-threshold"]
-    return [dict(CRASH(mode, f, 1, 1, steps=12, shards_q=1, segsize=8192, wal=(f == "script-elision-threshold")), fixed_seed=1, corpus=True, shards={"quick": 1, "thorough": 1}, cases={"quick": 1, "thorough": 1}) for f in foci]
+    foci = ["script-rollback-multi-segment"] if mode == "nested" else ["script-rollback-multi-segment", "script-prune-then-rollback-all", "script-elision-threshold", "script-clear-then-change"]
+    return [dict(CRASH(mode, f, 1, 1, steps=12, shards_q=1, segsize=8192, wal=(f in ("script-elision-threshold", "script-clear-then-change"))), fixed_seed=1, corpus=True, shards={"quick": 1, "thorough": 1}, cases={"quick": 1, "thorough": 1}) for f in foci]
 
 # the real FreeList (allocate per index + finish) and the real ProbeSequence / allocate_bucket, driven through nomt::verif_api,
 # against the Lean free-list / probing models (driver mode `alloc`) and harness-side oracles (conservation, placement, encoding)
@@ -79,6 +79,8 @@ def _with_driver(run):
     r["args"] = list(run["args"]) + ["--image-driver", "/verif/lean/.lake/build/bin/nomt_model"]
     return r
 CRASH_IMAGES = [_with_driver(dict(CRASH("crash", "script-elision-threshold", 1, 1, steps=12, shards_q=1), fixed_seed=1, corpus=True, shards={"quick": 1, "thorough": 1}, cases={"quick": 1, "thorough": 1})),
+                # F20: one commit empties a first-layer slot of a stored page and fills its sibling (the emptied slot must be in the WAL diff)
+                _with_driver(dict(CRASH("crash", "script-clear-then-change", 1, 1, steps=12, shards_q=1), fixed_seed=1, corpus=True, shards={"quick": 1, "thorough": 1}, cases={"quick": 1, "thorough": 1})),
                 _with_driver(CRASH("crash", "general", 2, 20, steps=1, shards_q=2)), _with_driver(CRASH("power", "kv", 2, 20, steps=1, shards_q=2))]
 CRASH_IMAGES_RULE = (" Crash images: the crash / power-loss enumeration of C03 / C04 (every I/O event index of chosen operations, incl. a directed history that moves a sub-trie across the "
                      "page-elision threshold) hands every directory that recovered to a state the API reports consistently to the same monitor (`check <dir> <expected>`), so that the image after WAL "
